@@ -87,6 +87,30 @@ def rule_acts(rng: random.Random, mode: str = 'mixed'):
     return out
 
 
+_ract0_counter = [3000000]
+
+
+def rule_acts0(rng: random.Random, mode: str = 'mixed'):
+    """One to three action classes for an `apply0< … >` rule: void, never / always vetoing bool, always throwing."""
+    from .gram import RACT0
+    if RACT_MODE[0] == 'void':
+        mode = 'void'
+    nothrow = (RACT_MODE[0] == 'novoid-throw')
+    out = []
+    for _ in range(rng.choice([1, 1, 2, 3])):
+        _ract0_counter[0] += 1
+        q = rng.random()
+        if mode == 'void' or q < 0.45:
+            out.append(RACT0(_ract0_counter[0]))
+        elif q < 0.65:
+            out.append(RACT0(_ract0_counter[0], True, False))
+        elif q < 0.85 or nothrow:
+            out.append(RACT0(_ract0_counter[0], True, True))
+        else:
+            out.append(RACT0(_ract0_counter[0], rng.random() < 0.5, False, True, rng.random() < 0.5))
+    return out
+
+
 def kinds(core_only: bool = False, raisers: bool = True):
     ks = [
         ('seq2', 2, lambda x, y: P('seq', x, y), 'core'),
@@ -138,6 +162,8 @@ def kinds(core_only: bool = False, raisers: bool = True):
             ('if_apply1', 1, lambda x: P('if_apply', x, *rule_acts(r0)), 'apply'),
             ('if_apply1v', 1, lambda x: P('if_apply', x, *rule_acts(r0, 'void')), 'apply'),
             ('seq_apply', 1, lambda x: P('seq', x, P('apply', *rule_acts(r0))), 'apply'),
+            ('seq_apply0', 1, lambda x: P('seq', x, P('apply0', *rule_acts0(r0))), 'apply'),
+            ('sor_apply0', 1, lambda x: P('sor', P('seq', x, P('apply0', *rule_acts0(r0))), P('any')), 'apply'),
         ]
     for n in range(0, 4):
         ks.append((f'rep{n}', 1, (lambda n: lambda x: P('rep', N(n), x))(n), 'rep'))
@@ -448,7 +474,10 @@ class RandGen:
         if op == 'if_apply':
             return P('if_apply', E(consuming, guarded), *rule_acts(r, 'mixed' if self.raisers else 'void'))
         if op == 'apply':
-            ap = P('apply', *rule_acts(r, 'mixed' if self.raisers else 'void'))
+            if r.random() < 0.5:
+                ap = P('apply', *rule_acts(r, 'mixed' if self.raisers else 'void'))
+            else:
+                ap = P('apply0', *rule_acts0(r, 'mixed' if self.raisers else 'void'))
             return P('seq', E(True, guarded), ap) if consuming else ap
         if op == 'state':
             return P('state', STATE(r.random() < 0.4), E(consuming, guarded))
